@@ -1,7 +1,9 @@
 (* C17 — all peers agree on who owns a subscriber.  Statements only; proofs are in
-   Proofs/RendezvousProofs.v.  Each theorem is closed by [exact] and followed by Print Assumptions. *)
-From Coq Require Import NArith List Permutation Sorted.
-From Verif Require Import Base.Word Model.Rendezvous Proofs.RendezvousProofs.
+   Proofs/RendezvousProofs.v and Proofs/RendezvousRefine.v.  Each theorem is closed by [exact] and
+   followed by Print Assumptions. *)
+From Coq Require Import NArith List Bool Permutation Sorted.
+From Verif Require Import Base.Word Base.Check Model.Rendezvous Model.RendezvousSpec
+  Proofs.RendezvousProofs Proofs.RendezvousRefine.
 Import ListNotations.
 Local Open Scope N_scope.
 
@@ -28,6 +30,54 @@ Print Assumptions C17_add_order_invariant.
 Theorem C17_owner_in_peers_partial : forall k l, l <> [] -> scores_pos k l -> In (owner k l) l.
 Proof. exact owner_in. Qed.
 Print Assumptions C17_owner_in_peers_partial.
+
+(* (2') the zero-score edge, unguarded, for an arbitrary score function sc (the code's instance is
+   sc := score k, C17_owner_is_instance).  With at least two nodes:
+     - every score 0            => the owner is "" (not a peer unless "" is one),
+     - some score positive      => the owner is the FIRST node of the sorted list with the maximal score,
+     - owner is a peer         <=> some score is positive or "" is itself a peer.
+   Whether the FNV-1a/Wang score has an all-zero row for some key is not decided here. *)
+Theorem C17_owner_is_instance : forall k l, owner k l = owner_g (score k) l.
+Proof. exact owner_instance. Qed.
+Print Assumptions C17_owner_is_instance.
+
+Theorem C17_owner_all_scores_zero : forall sc l,
+  (2 <= length l)%nat -> (forall n, In n l -> sc n = 0) -> owner_g sc l = [].
+Proof. exact owner_g_all_zero. Qed.
+Print Assumptions C17_owner_all_scores_zero.
+
+Theorem C17_owner_is_first_maximum : forall sc l,
+  (2 <= length l)%nat -> (exists n, In n l /\ 0 < sc n) ->
+  exists l1 l2, l = l1 ++ owner_g sc l :: l2 /\ 0 < sc (owner_g sc l) /\
+                (forall n, In n l1 -> sc n < sc (owner_g sc l)) /\
+                (forall n, In n l2 -> sc n <= sc (owner_g sc l)).
+Proof. exact owner_g_first_max. Qed.
+Print Assumptions C17_owner_is_first_maximum.
+
+Theorem C17_owner_member_iff : forall sc l,
+  (2 <= length l)%nat -> (In (owner_g sc l) l <-> (exists n, In n l /\ 0 < sc n) \/ In [] l).
+Proof. exact owner_g_in_iff. Qed.
+Print Assumptions C17_owner_member_iff.
+
+(* all scores 0: the ranked list (which Allocate follows) is the sorted node list, its head is a
+   node, while GetOwner answers "" *)
+Theorem C17_ranked_all_scores_zero : forall sc l, (forall n, In n l -> sc n = 0) -> ranked_g sc l = l.
+Proof. exact ranked_g_all_zero. Qed.
+Print Assumptions C17_ranked_all_scores_zero.
+
+(* a zero row breaks membership and removal-minimality (abstract score; hence the guards below) *)
+Theorem C17_membership_zero_row_refuted : ~ In (owner_g sc0 [[97]; [98]]) [[97]; [98]].
+Proof. exact owner_g_zero_not_member. Qed.
+Print Assumptions C17_membership_zero_row_refuted.
+
+Theorem C17_removal_minimal_zero_row_refuted :
+  owner_g sc0 (remove_first [97] [[97]; [98]]) <> owner_g sc0 [[97]; [98]] /\ owner_g sc0 [[97]; [98]] <> [97].
+Proof. exact removal_minimal_g_zero_refuted. Qed.
+Print Assumptions C17_removal_minimal_zero_row_refuted.
+
+Example C17_zero_row_hypotheses_satisfiable :
+  (2 <= length [[97]; [98]])%nat /\ (forall n, In n [[97]; [98]] -> sc0 n = 0).
+Proof. exact ex_zero_row. Qed.
 
 (* (3) the ranked list is a permutation of the peer set and (distinct scores) starts with the owner *)
 Theorem C17_ranked_is_permutation : forall k l, Permutation (ranked k l) l.
@@ -65,8 +115,87 @@ Theorem C17_all_nodes_agree_under_health_refuted :
 Proof. exact agree_under_health_refuted. Qed.
 Print Assumptions C17_all_nodes_agree_under_health_refuted.
 
+(* (6) health bookkeeping (checkPeer): a checkPeer step of the Model applies [chk] to the peer's
+   record and touches nothing else of the view; from a fresh pool a peer is unhealthy exactly when
+   its check history ends with at least 3 consecutive failures; one success restores it *)
+Theorem C17_checkpeer_step_is_chk : forall s n p up,
+  (N.to_nat n < length s)%nat -> host_ok (peer_addr (getn s n) p) = true ->
+  let h' := chk (health_of (getn s n) p) (up && reachable s n p) in
+  let s' := fst (fst (step s (CheckPeer n p up))) in
+  snd (fst (step s (CheckPeer n p up))) = OHealth (fst h') (snd h') /\
+  health_of (getn s' n) p = h' /\
+  (forall q, q <> p -> health_of (getn s' n) q = health_of (getn s n) q) /\
+  cfg (getn s' n) = cfg (getn s n) /\ (forall a, find_idx 0 s' a = find_idx 0 s a) /\ length s' = length s.
+Proof. exact checkpeer_step. Qed.
+Print Assumptions C17_checkpeer_step_is_chk.
+
+Theorem C17_unhealthy_iff_three_consecutive_failures : forall rs,
+  fst (run_chk rs) = false <-> 3 <= consec_fails rs.
+Proof. exact unhealthy_iff_three_fails. Qed.
+Print Assumptions C17_unhealthy_iff_three_consecutive_failures.
+
+Theorem C17_healthy_after_one_success : forall rs, run_chk (rs ++ [true]) = (true, 0).
+Proof. exact healthy_after_success. Qed.
+Print Assumptions C17_healthy_after_one_success.
+
+Theorem C17_third_failure_flips : forall rs,
+  fst (run_chk rs) = true -> (fst (run_chk (rs ++ [false])) = false <-> consec_fails rs = 2).
+Proof. exact third_failure_flips. Qed.
+Print Assumptions C17_third_failure_flips.
+
+Theorem C17_checkpeer_threshold_in_model : forall cfgs n p ups,
+  (N.to_nat n < length cfgs)%nat -> host_ok (peer_addr (getn (init cfgs) n) p) = true ->
+  let outcomes := map (fun up => up && reachable (init cfgs) n p) ups in
+  (mem_s p (unhealthy (getn (run_model (init cfgs) (map (CheckPeer n p) ups)) n)) = true
+   <-> 3 <= consec_fails outcomes).
+Proof. exact checkpeer_threshold. Qed.
+Print Assumptions C17_checkpeer_threshold_in_model.
+
+(* (7) refinement: the trace monitor the harness runs (Model/RendezvousSpec.v accept, clauses 0-8:
+   agreement, membership, ranked, removal-minimality, health agreement and minimality, one pool per
+   subscriber, release, persistence; clause 8: the response names the requested id) never rejects a
+   run of the Model, for every configuration and
+   every op sequence inside the decidable guard:
+     - the scores of every key asked by GetOwner/IsLocalOwner/ranked are positive and pairwise
+       distinct over the names U (clauses 1-3 only; clauses 0, 4-7 need no score guard),
+     - no "X" / "X:8081" pair among the names (K17b),
+     - no node marks itself unhealthy or health-checks itself (K17a), no node removes itself,
+     - node indices are valid, configured and added names are in U,
+     - the ids given to Allocate are valid UTF-8 (utf8_coerce k = k; K17d).
+   [accept_trace], [model_trace] are Base/Check.v's, as evaluated on every harness case. *)
+Theorem C17_monitor_accepts_model_partial : forall U K cfgs ops,
+  guard U K cfgs ops = true ->
+  accept_trace accept 1 (sinit cfgs)
+    (map (fun x => (fst (fst x), snd (fst x))) (model_trace step (init cfgs) ops)) = (0, 0).
+Proof. exact monitor_accepts_model. Qed.
+Print Assumptions C17_monitor_accepts_model_partial.
+
+(* (7') outside the last guard: an id that is not valid UTF-8 is allocated under two names by its one
+   owner depending on the entry node, and the forwarded response names another subscriber: the Model
+   (as the code, K17d) is rejected by clause 8 at the first forwarded Allocate *)
+Theorem C17_alloc_names_requested_id_refuted :
+  map (fun x => snd (fst x)) (model_trace step (init ex_cfgs) [Alloc 0 [255]; Alloc 1 [255]; Holds [255]; Holds ufffd])
+    = [OServed ex_b2 ufffd; OServed ex_b2 [255]; OHold [1]; OHold [1]] /\
+  accept_trace accept 1 (sinit ex_cfgs)
+    (map (fun x => (fst (fst x), snd (fst x))) (model_trace step (init ex_cfgs) [Alloc 0 [255]])) = (1, 9).
+Proof. exact alloc_identity_refuted. Qed.
+Print Assumptions C17_alloc_names_requested_id_refuted.
+
 (* non-vacuity: the guards hold on a concrete cluster *)
 Example C17_guards_satisfiable :
   scores_pos [115;49] [[98;110;103;45;49]; [98;110;103;45;50]; [98;110;103;45;51]] /\
   owner [115;49] [[98;110;103;45;49]; [98;110;103;45;50]; [98;110;103;45;51]] <> [].
 Proof. split; [apply scores_pos_b_ok; vm_compute; reflexivity|vm_compute; discriminate]. Qed.
+
+(* non-vacuity of (7): a 33-step history on three nodes inside the guard (queries, Allocate/Release of a
+   plain id and of "a/../b?x" through a peer, three failed health checks, a shared health change,
+   AddPeer, RemovePeer); in it a subscriber is held by exactly one pool and by none after Release,
+   and a peer turns unhealthy at the third failure and healthy at the first success *)
+Example C17_refinement_guard_satisfiable :
+  guard [ex_b1; ex_b2; ex_b3; ex_b4] [ex_k1] ex_cfgs ex_ops = true /\
+  map (fun x => snd (fst x)) (model_trace step (init ex_cfgs) [Alloc 0 ex_k1; Alloc 1 ex_k1; Holds ex_k1; Release 2 ex_k1; Holds ex_k1])
+    = [OServed ex_b1 ex_k1; OServed ex_b1 ex_k1; OHold [0]; ONone; OHold []] /\
+  map (fun x => snd (fst x)) (model_trace step (init ex_cfgs)
+        [CheckPeer 0 ex_b2 false; CheckPeer 0 ex_b2 false; CheckPeer 0 ex_b2 false; CheckPeer 0 ex_b2 true])
+    = [OHealth true 1; OHealth true 2; OHealth false 3; OHealth true 0].
+Proof. exact ex_guard_holds. Qed.
